@@ -292,11 +292,33 @@ def run_history(ctx, base, spec, ops):
         sim.shutdown()
 
 
+def batch_corpus():
+    """one delete task handles a batch of released copies: a copy the deletion-safety rule holds back must not hold back the others"""
+    out = []
+    for blocked in ([1], [0], [0, 2], [3]):
+        nodes = [{"name": "fld", "group": "g1", "stype": "F", "host": "h1", "active": True, "username": "u", "address": "addr"},
+                 {"name": "a1", "group": "g2", "stype": "A", "host": "h2", "active": True, "username": "u", "address": "addr"},
+                 {"name": "a2", "group": "g3", "stype": "A", "host": "h2", "active": True, "username": "u", "address": "addr"}]
+        files = [{"acq": "acq1", "name": f"f{i}", "size": 13} for i in range(4)]
+        copies = [{"file": i, "node": "fld", "has": "Y", "wants": "N"} for i in range(4)]
+        for i in range(4):
+            copies.append({"file": i, "node": "a1", "has": "Y", "wants": "Y"})
+            if i not in blocked:
+                copies.append({"file": i, "node": "a2", "has": "Y", "wants": "Y"})
+        out.append(({"groups": [{"name": "g1"}, {"name": "g2"}, {"name": "g3"}], "nodes": nodes, "acqs": ["acq1"], "files": files, "copies": copies,
+                     "reqs": [], "rules": [], "unregistered": [], "ireqs": []}, []))
+    return out
+
+
 def explore_histories(ctx, base, n):
     worst = 0
-    for k in range(n):
-        spec = histories.gen_spec(ctx.rng)
-        ops = histories.gen_ops(ctx.rng, spec, ctx.rng.randint(2, 10))
+    corpus = batch_corpus()
+    for k in range(n + len(corpus)):
+        if k < len(corpus):
+            spec, ops = corpus[k]
+        else:
+            spec = histories.gen_spec(ctx.rng)
+            ops = histories.gen_ops(ctx.rng, spec, ctx.rng.randint(2, 10))
         r = run_history(ctx, base, spec, ops)
         ctx.count("history")
         if r is None:
